@@ -24,18 +24,27 @@ def Raise.HLO.isReduce : HLO → Bool
     any of the six operators, `BroadcastOp`): for ANY expression, shape and
     environment, if the model of the raiser answers `h`, then NumPy's `h` applied
     to the identified operands has the index lambda's shape and, at every
-    in-bounds index, its value. -/
+    in-bounds index, its value.
+
+    Fills outside the exact value domain (`pt.full(shape, nan)` — a pymbolic `NaN` node —, a
+    `nan`, `±inf` or non-real complex constant; the serialiser spells them all `.nan`): they are
+    classified `full .nan` like the real code's `FullOp`, and the theorem then says that the
+    fill and the index lambda agree in being `undef` at every index — i.e. "not a value of the
+    exact domain".  WHICH non-finite value is filled (nan vs. +inf vs. -inf, its dtype) is not
+    distinguished here; that the real `FullOp.fill_value` is the constant of the expression is
+    covered by the correspondence batch (the raised operation is evaluated with NumPy and
+    compared, NaNs equal) and, for the emitted spelling, by C14's text comparison. -/
 theorem raise_sound (e : SExpr) (shape : Shape) (env : List (String × Arr Val)) (h : HLO)
     (hr : raise e shape (shapesOf env) = some h) :
     (hloDenote h shape env).shape = shape ∧
     ∀ i, inB shape i = true → (hloDenote h shape env).get i = eval (idxEnv i env) (dropCasts e) := by
   refine ⟨rfl, fun i hi => ?_⟩
   simp only [raise] at hr
-  by_cases hl : isLit (dropCasts e) = true
+  by_cases hl : isFill (dropCasts e) = true
   · rw [if_pos hl] at hr
     simp only [Option.some.injEq] at hr
     subst hr
-    exact litVal_eq i env _ (Or.inl hl)
+    exact litVal_eq i env _ (isFill_cases hl)
   · rw [if_neg hl] at hr
     cases h1 : tryBinary (dropCasts e) shape (shapesOf env) with
     | some h' =>
@@ -77,7 +86,7 @@ theorem raise_reduce_inv (e : SExpr) (shape : Shape) (bs : List (String × Shape
     (hr : raise e shape bs = some h) (hred : h.isReduce = true) :
     tryReduce e shape bs = some h := by
   simp only [raise] at hr
-  by_cases hl : isLit (dropCasts e) = true
+  by_cases hl : isFill (dropCasts e) = true
   · rw [if_pos hl] at hr
     simp only [Option.some.injEq] at hr
     subst hr; simp [HLO.isReduce] at hred
@@ -230,6 +239,10 @@ example : ∃ h, raise (.lnot (.sub "_in0" [.idx 0, .idx 1])) [2, 3] (shapesOf c
     ∧ h.isReduce = false := ⟨.logicalNot "_in0", rfl, rfl⟩
 example : ∃ h, raise (.sub "_in1" [.idx 1]) [2, 3] (shapesOf c19Env) = some h
     ∧ h.isReduce = false := ⟨.broadcast "_in1", rfl, rfl⟩
+-- `pt.full(shape, nan)` / `pt.full(shape, -inf)` (also under a dtype cast): a fill, of value `undef`
+example : raise .nan [2, 3] (shapesOf c19Env) = some (.full .nan) := rfl
+example : raise (.cast "float32" .nan) [] [] = some (.full .nan) := rfl
+example : (hloDenote (.full .nan) [2, 3] c19Env).get [1, 2] = .undef := by decide
 example : ∃ h, raise (.cast "float32" (.rat 5 2)) [2, 3] (shapesOf c19Env) = some h
     ∧ h.isReduce = false := ⟨.full (.rat 5 2), rfl, rfl⟩
 example : ∃ h, raise (.call "pytato.c99.sin" [.sub "_in0" [.idx 0, .idx 1]]) [2, 3]
